@@ -313,7 +313,17 @@ func (env *Env) applyUF(uf *UFunc, c *ast.CallExpr) Value {
 	}
 	sym := "uf_" + sanitize(uf.Name)
 	env.x.declareFun(sym, sorts, ls[0].Sort)
-	return Value{T: rt, S: app(sym, args...)}
+	res := app(sym, args...)
+	if uf.Witness && len(res) < 400 {
+		// a skolem function: its value is a position / key other universals have to
+		// be instantiated at, even when it first appears inside an instance
+		if env.s.noTrig {
+			env.s.pendingTrig = append(env.s.pendingTrig, [2]string{ls[0].Sort, res})
+		} else {
+			env.s.trigger(ls[0].Sort, res)
+		}
+	}
+	return Value{T: rt, S: res}
 }
 
 func (env *Env) loopVisited() string {
